@@ -195,7 +195,7 @@ impl Message for f32 {
     where
         B: BufMut,
     {
-        if *self != 0.0 {
+        if self.to_bits() != 0 {
             float::encode(1, self, buf)
         }
     }
@@ -216,7 +216,7 @@ impl Message for f32 {
         }
     }
     fn encoded_len(&self) -> usize {
-        if *self != 0.0 {
+        if self.to_bits() != 0 {
             float::encoded_len(1, self)
         } else {
             0
@@ -230,7 +230,7 @@ impl Message for f64 {
     where
         B: BufMut,
     {
-        if *self != 0.0 {
+        if self.to_bits() != 0 {
             double::encode(1, self, buf)
         }
     }
@@ -251,7 +251,7 @@ impl Message for f64 {
         }
     }
     fn encoded_len(&self) -> usize {
-        if *self != 0.0 {
+        if self.to_bits() != 0 {
             double::encoded_len(1, self)
         } else {
             0
